@@ -91,6 +91,7 @@ type frame struct {
 }
 
 type FnVC struct {
+	unboundClauses []string // postcondition / iteration clauses that did not bind (reported, no obligation)
 	w     *World
 	fn    *ssa.Function
 	sc    *Script
@@ -218,6 +219,10 @@ func (v *FnVC) Build() (err error) {
 			if !live[r.blk] {
 				continue // a return behind a branch on constants (`var err error; if err != nil {...}`) is dead code, not vacuity
 			}
+			if why, dead := v.con.DeadReturns[i]; dead {
+				v.note(fmt.Sprintf("return %d of %s is declared unreachable (%s): no vacuity guard there", i, FuncKey(v.fn), why))
+				continue
+			}
 			v.addObl("CANARY", fmt.Sprintf("false-at-return%d", i), token.NoPos, r.reach, tTrue, nil, "notunsat")
 		}
 	}
@@ -235,7 +240,10 @@ func (v *FnVC) Build() (err error) {
 		if v.con != nil {
 			for _, c := range v.con.Ensures {
 				env := &specEnv{v: v, fr: fr, st: v.exitState, old: fr.entry, result: v.exitVal, resType: v.fn.Signature.Results()}
-				t := env.evalBool(c.Expr)
+				t, bound := v.evalClause(env, c)
+				if !bound {
+					continue
+				}
 				name := c.Name
 				if name == "" {
 					name = normText(c.Text)
@@ -1629,7 +1637,10 @@ func (v *FnVC) backEdge(fr *frame, li *loopInfo, from *ssa.BasicBlock, st *State
 		}
 		for _, c := range v.con.Iterations[li.ordinal] {
 			env := &specEnv{v: v, fr: fr, st: st, old: li.headState, loop: li, over: ovHead, nextOf: nextOf}
-			t := env.evalBool(c.Expr)
+			t, bound := v.evalClause(env, c)
+			if !bound {
+				continue
+			}
 			o := v.addObl("ITER", fmt.Sprintf("loop%d:%s", li.ordinal, clauseName(c)), from.Instrs[len(from.Instrs)-1].Pos(), ec, t, c.Props, "")
 			o.Clause = c
 		}
@@ -1917,4 +1928,24 @@ func hasFuncArg(c *ssa.CallCommon) bool {
 		}
 	}
 	return false
+}
+
+// evalClause evaluates a postcondition or iteration clause. A clause that names something the function no longer has
+// (a renamed local, a loop variable that was dropped) does not bind: it yields no obligation (its locked group is
+// reported MISSING) and the other clauses of the function are still checked. Invariants are different: the other
+// obligations rely on them, so an invariant that does not bind still puts the whole function out of reach.
+func (v *FnVC) evalClause(env *specEnv, c *Clause) (t Term, ok bool) {
+	mark := len(v.sc.lines)
+	defer func() {
+		if r := recover(); r != nil {
+			if u, isU := r.(unsupportedErr); isU && strings.HasPrefix(u.msg, "spec:") {
+				v.sc.lines = v.sc.lines[:mark]
+				v.unboundClauses = append(v.unboundClauses, clauseName(c)+": "+u.msg)
+				ok = false
+				return
+			}
+			panic(r)
+		}
+	}()
+	return env.evalBool(c.Expr), true
 }
